@@ -44,10 +44,17 @@ type emitter struct {
 
 func (e *emitter) emit(a string) { e.acts = append(e.acts, a) }
 
-func loadWalker(repo string) (*walker, error) {
+// target of the walk: package directory, struct type, the file whose methods form the table, and the methods
+// that are constructors (they run before the object is shared: their writes do not make a field "written")
+type target struct {
+	dir, typ, file string
+	ctors          map[string]bool
+}
+
+func loadWalker(repo string, tg target) (*walker, error) {
 	w := &walker{fset: token.NewFileSet(), methods: map[string]*ast.FuncDecl{}, isMap: map[string]bool{},
 		fieldID: map[string]int{}, written: map[string]bool{}, selfSync: map[string]bool{}}
-	dir := filepath.Join(repo, "runtime")
+	dir := filepath.Join(repo, tg.dir)
 	ents, err := os.ReadDir(dir)
 	if err != nil {
 		return nil, err
@@ -66,7 +73,7 @@ func loadWalker(repo string) (*walker, error) {
 			case *ast.GenDecl:
 				for _, s := range x.Specs {
 					ts, ok := s.(*ast.TypeSpec)
-					if !ok || ts.Name.Name != "VM" || n != "vm.go" {
+					if !ok || ts.Name.Name != tg.typ || n != tg.file {
 						continue
 					}
 					st, ok := ts.Type.(*ast.StructType)
@@ -98,18 +105,18 @@ func loadWalker(repo string) (*walker, error) {
 					continue
 				}
 				id, ok := star.X.(*ast.Ident)
-				if !ok || id.Name != "VM" {
+				if !ok || id.Name != tg.typ {
 					continue
 				}
 				w.methods[x.Name.Name] = x
-				if n == "vm.go" {
+				if n == tg.file && !tg.ctors[x.Name.Name] {
 					w.inVMGo = append(w.inVMGo, x.Name.Name)
 				}
 			}
 		}
 	}
 	if len(w.fields) == 0 {
-		return nil, fmt.Errorf("struct VM not found in runtime/vm.go")
+		return nil, fmt.Errorf("struct %s not found in %s/%s", tg.typ, tg.dir, tg.file)
 	}
 	return w, nil
 }
@@ -546,6 +553,9 @@ func (e *emitter) stmt(s ast.Stmt, nested bool) {
 	case *ast.BranchStmt, *ast.EmptyStmt:
 	case *ast.LabeledStmt:
 		e.stmt(v.Stmt, nested)
+	case *ast.SendStmt:
+		e.expr(v.Chan, nested)
+		e.expr(v.Value, nested)
 	case *ast.GoStmt:
 		e.emit("AOpaque")
 	default:
@@ -556,11 +566,13 @@ func (e *emitter) stmt(s ast.Stmt, nested bool) {
 func coqList(xs []string) string { return "[" + strings.Join(xs, "; ") + "]" }
 
 // walk prints the Coq table for the repository at `repo`.
-func walk(repo string) (string, error) {
-	w, err := loadWalker(repo)
+func walk(repo string, tg target) (string, error) {
+	w, err := loadWalker(repo, tg)
 	if err != nil {
 		return "", err
 	}
+	// constructors: walked only to learn nothing — their writes are not counted (fields they alone write are
+	// immutable once the object is shared)
 	type entry struct {
 		name string
 		acts []string
@@ -574,7 +586,7 @@ func walk(repo string) (string, error) {
 		ents = append(ents, entry{name, e.acts})
 	}
 	var sb strings.Builder
-	sb.WriteString("(* GENERATED by harness/cmd/c10 walk from runtime/vm.go — do not edit *)\n")
+	fmt.Fprintf(&sb, "(* GENERATED by harness/cmd/c10 walk from %s/%s (type %s) — do not edit *)\n", tg.dir, tg.file, tg.typ)
 	sb.WriteString("From Coq Require Import List String.\nImport ListNotations.\nFrom V.C10 Require Import Lock.\nOpen Scope string_scope.\n\n")
 	var fl []string
 	for i, f := range w.fields {
